@@ -117,6 +117,56 @@ Proof.
     rewrite Eon. f_equal. rewrite Hnc'. apply dot_off_block. exact Hcm.
 Qed.
 
+(* b + A x and b - A x (ParMatrix::mult_append, ParMatrix::residual) *)
+Theorem par_mult_append_row (rs : rank_state F) (X b0 : list F) N li :
+  rs_wf F N rs -> li < rs_nr rs ->
+  xat (par_mult_append_local F zero add mul rs (map (fun c => nth c X zero) (seq (rs_fc rs) (rs_nc rs)))
+                      (map (fun c => nth c X zero) (rs_colmap rs)) b0) li
+  = add (xat b0 li) (dot (gden_row F zero add rs li) X N).
+Proof.
+  intros [Hon [Hnr [Hnc [Hoff [Hnr' [Hnc' [Hle Hcm]]]]]]] Hli.
+  unfold par_mult_append_local, gden_row. rewrite dot_add.
+  replace (rs_nr rs =? 0) with false by (symmetry; apply Nat.eqb_neq; lia).
+  assert (Eon : xat (csr_spmv_append F zero add mul (rs_on rs) (map (fun c => nth c X zero) (seq (rs_fc rs) (rs_nc rs))) b0) li
+                = add (xat b0 li) (dot (fun j => if (rs_fc rs <=? j) && (j <? rs_fc rs + rs_nc rs)
+                                then denCsr (rs_on rs) li (j - rs_fc rs) else zero) X N)).
+  { rewrite (csr_spmv_append_spec F zero one add mul sub opp Fth) by (try exact Hon; lia).
+    rewrite Hnc. f_equal. apply dot_on_block. exact Hle. }
+  destruct (length (rs_colmap rs) =? 0) eqn:Ecm.
+  - rewrite Eon. apply Nat.eqb_eq in Ecm. destruct (rs_colmap rs); [|discriminate]. simpl.
+    rewrite dot_zero. ring.
+  - rewrite (csr_spmv_append_spec F zero one add mul sub opp Fth) by (try exact Hoff; lia).
+    rewrite Eon. rewrite Hnc', (dot_off_block _ X (rs_colmap rs) N Hcm). ring.
+Qed.
+
+Theorem par_residual_row (rs : rank_state F) (X b0 : list F) N li :
+  rs_wf F N rs -> li < rs_nr rs -> rs_nr rs <= length b0 ->
+  xat (par_residual_local F zero mul sub rs (map (fun c => nth c X zero) (seq (rs_fc rs) (rs_nc rs)))
+                      (map (fun c => nth c X zero) (rs_colmap rs)) b0) li
+  = sub (xat b0 li) (dot (gden_row F zero add rs li) X N).
+Proof.
+  intros [Hon [Hnr [Hnc [Hoff [Hnr' [Hnc' [Hle Hcm]]]]]]] Hli Hb0.
+  unfold par_residual_local, gden_row. rewrite dot_add.
+  replace (rs_nr rs =? 0) with false by (symmetry; apply Nat.eqb_neq; lia). cbn [orb].
+  set (r := if rs_nc rs =? 0 then b0 else csr_residual F zero mul sub (rs_on rs) (map (fun c => nth c X zero) (seq (rs_fc rs) (rs_nc rs))) b0).
+  assert (Eon : xat r li = sub (xat b0 li) (dot (fun j => if (rs_fc rs <=? j) && (j <? rs_fc rs + rs_nc rs)
+                                then denCsr (rs_on rs) li (j - rs_fc rs) else zero) X N)).
+  { unfold r. destruct (rs_nc rs =? 0) eqn:E0.
+    - apply Nat.eqb_eq in E0.
+      rewrite <- (dot_on_block (fun c => denCsr (rs_on rs) li c) X (rs_fc rs) (rs_nc rs) N Hle).
+      rewrite E0. unfold dot_row. simpl. ring.
+    - rewrite (csr_residual_spec F zero one add mul sub opp Fth) by (try exact Hon; lia).
+      rewrite Hnc. f_equal. apply dot_on_block. exact Hle. }
+  assert (Hrlen : csr_nr (rs_off rs) <= length r).
+  { unfold r. destruct (rs_nc rs =? 0); [lia|]. unfold csr_residual. rewrite map_length. unfold indexed.
+    rewrite indexed_from_length. destruct Hon as [Hl _]. lia. }
+  destruct (length (rs_colmap rs) =? 0) eqn:Ecm.
+  - rewrite Eon. apply Nat.eqb_eq in Ecm. destruct (rs_colmap rs); [|discriminate]. simpl.
+    rewrite dot_zero. ring.
+  - rewrite (csr_spmv_append_neg_spec F zero one add mul sub opp Fth) by (try exact Hoff; exact Hrlen).
+    rewrite Eon. rewrite Hnc', (dot_off_block _ X (rs_colmap rs) N Hcm). ring.
+Qed.
+
 (* composed with C03: for a package world accepted by fwd_ok, the distributed product of every rank
    equals the rows of the global operator applied to the global vector *)
 Theorem par_mult_global (w : world) (st : list (rank_state F)) (X : list F) (big N : nat) p li :
